@@ -329,7 +329,8 @@ Definition g_repeated : stmt := SGroup (PCons (leaf 2 0 [] [] AOk) (PCons (leaf 
 
 Lemma sharing_breaks_counts :
   gen_sync_group_own_invocations = false ->
-  fst (sync_stmt g_repeated) = fst (dist_stmt id_tr g_repeated) /  count 2 (snd (sync_stmt g_repeated)) = 1 /\ count 2 (snd (dist_stmt id_tr g_repeated)) = 2.
+  fst (sync_stmt g_repeated) = fst (dist_stmt id_tr g_repeated) /\
+  count 2 (snd (sync_stmt g_repeated)) = 1 /\ count 2 (snd (dist_stmt id_tr g_repeated)) = 2.
 Proof.
   intros H. unfold g_repeated.
   rewrite sync_group_stmt_eq, sync_group_eq. unfold shared_sync. rewrite H.
